@@ -1,0 +1,12 @@
+//go:build verif
+
+package amqp
+
+import (
+	"sync"
+
+	"github.com/kubeshark/base/pkg/api"
+)
+
+func verifYield(site string)                     { api.VerifYieldPoint(site) }
+func verifAwaitLock(mu *sync.Mutex, site string) { api.VerifAwaitLock(mu, site) }
